@@ -121,7 +121,6 @@ class Spec:
                 self.tags.add('tma-write-at-0-before-first-overflow')
             self.tma = v
             if self.ph == 2:
-                self.tags.add('tma-write-in-reload-cycle')
                 self.tima = v
         elif kind == 'wtac':
             self.tac = v & 7
